@@ -7,7 +7,9 @@ PROP = {
     "rule": "robust: (1) exhaustive boundary matrix: every filter registered in filters/*.go (read from the source at run "
             "time) x receiver in U x argument tuples in U^arity plus one over-arity call, every comparison/boolean "
             "operator x U x U, 31 access/loop/tag forms x U (x U), U = 21 (quick) / 56 (thorough) boundary values (typed zeros int64(0), uint(0) included); a "
-            "family of pure templates over ranges with extreme endpoints and lengths around the array-conversion bound; "
+            "family of pure templates over ranges with extreme endpoints and lengths around the array-conversion bound; 299 whole templates "
+            "about times ({{ t }}, t | date with and without a format, date on date strings of every modelled layout and on strings no layout "
+            "accepts, times inside arrays, maps and behind pointers, date results fed to other filters) on 12 instants from the year -32873 to 36812; "
             "(2) every sequence of <= 3 (thorough: 4) tokens of the expression lexer in 6 expression contexts; "
             "(3) grammar-generated templates x generated environments (all tags, filters, operators; measured "
             "parse/render success rates in input_distribution gen:*); (4) random bytes / UTF-8 / delimiter-dense sources; "
